@@ -47,6 +47,9 @@ type Node struct {
 	Struct bool
 	// Tag is free for callers (e.g. the Go type a reflective dump saw).
 	Tag string
+	// Share groups structurally identical subtrees the Author wants rendered
+	// as one YAML anchor plus aliases (0 = none). JSON renders them inline.
+	Share int
 }
 
 func Null() *Node           { return &Node{Kind: KNull} }
@@ -292,6 +295,10 @@ func fromJSONTok(dec *json.Decoder, tok json.Token) (*Node, error) {
 // YAMLStyle holds rendering choices, drawn from a tape by the Author.
 type YAMLStyle struct {
 	T *tape.Tape // nil => all defaults (block style, encoder-chosen quoting)
+	// anchors: first rendered occurrence per Share group; counts: occurrences per group
+	anchors map[int]*yaml.Node
+	counts  map[int]int
+	Aliases int // number of alias nodes emitted
 	// FlowDepth: mappings/sequences deeper than this may be rendered in flow style
 	AllowFlow bool
 	Quote     bool
@@ -301,6 +308,15 @@ func isPlainSafeForFlow(s string) bool { return !strings.ContainsAny(s, "\n\r") 
 
 // ToYAMLNode converts to a yaml.v3 node tree.
 func (n *Node) ToYAMLNode(st *YAMLStyle) *yaml.Node {
+	if st != nil {
+		st.anchors = map[int]*yaml.Node{}
+		st.counts = map[int]int{}
+		n.Walk("", func(_ string, x *Node) {
+			if x.Share != 0 {
+				st.counts[x.Share]++
+			}
+		})
+	}
 	return n.toYAML(st, 0, false)
 }
 
@@ -308,6 +324,20 @@ func (n *Node) toYAML(st *YAMLStyle, depth int, inFlow bool) *yaml.Node {
 	if n == nil {
 		return &yaml.Node{Kind: yaml.ScalarNode, Tag: "!!null", Value: "null"}
 	}
+	if st != nil && n.Share != 0 && st.counts[n.Share] >= 2 {
+		if first, ok := st.anchors[n.Share]; ok {
+			st.Aliases++
+			return &yaml.Node{Kind: yaml.AliasNode, Alias: first, Value: first.Anchor}
+		}
+		y := n.toYAMLPlain(st, depth, inFlow)
+		y.Anchor = fmt.Sprintf("s%d", n.Share)
+		st.anchors[n.Share] = y
+		return y
+	}
+	return n.toYAMLPlain(st, depth, inFlow)
+}
+
+func (n *Node) toYAMLPlain(st *YAMLStyle, depth int, inFlow bool) *yaml.Node {
 	switch n.Kind {
 	case KNull:
 		v := "null"
